@@ -116,11 +116,16 @@ deriving Repr
     `Unsubscribe` of an inner subscription holding its own finalizer list, or a Go closure that
     performs several release actions one after the other WITHOUT isolating them
     (`func() { subscriptions.Unsubscribe(); stop() }`, operator_utility.go:647-650): a panic in one
-    action ends the closure, the remaining actions are skipped and the panic escapes unwrapped -/
+    action ends the closure, the remaining actions are skipped and the panic escapes unwrapped;
+    or a closure that DEFERS its library-internal release actions
+    (`func() { defer stop(); subscriptions.Unsubscribe() }`, operator_utility.go:647-653 since fix
+    694a874): the body runs, then the releases `rel` (ids of actions that cannot panic: closing a
+    channel once) run whether or not the body panicked, and the body's panic escapes unwrapped -/
 inductive Fin
   | leaf (id : Nat) (panic : Option Err)
   | sub (fs : List Fin)
   | closure (fs : List Fin)
+  | deferred (body : Fin) (rel : List Nat)
 deriving Repr
 
 mutual
@@ -131,6 +136,7 @@ def Fin.run : Fin → List Nat × Option TErr
     let r := Fin.loop fs
     (r.1, if r.2.isEmpty then none else some (.join r.2))
   | .closure fs => Fin.seq fs
+  | .deferred body rel => let a := Fin.run body; (a.1 ++ rel, a.2)
 /-- the loop of subscription.go:136-142: every finalizer runs; errors are collected -/
 def Fin.loop : List Fin → List Nat × List TErr
   | [] => ([], [])
@@ -149,11 +155,12 @@ def Fin.seq : List Fin → List Nat × Option TErr
 end
 
 mutual
-/-- no unisolated multi-action closure anywhere in the tree -/
+/-- no unisolated multi-action closure anywhere in the tree (a deferred release is isolated) -/
 def Fin.closureFree : Fin → Bool
   | .leaf _ _ => true
   | .sub fs => Fin.closureFreeL fs
   | .closure _ => false
+  | .deferred body _ => Fin.closureFree body
 def Fin.closureFreeL : List Fin → Bool
   | [] => true
   | f :: fs => Fin.closureFree f && Fin.closureFreeL fs
@@ -179,9 +186,23 @@ def Fin.ids : Fin → List Nat
   | .leaf id _ => [id]
   | .sub fs => Fin.idsL fs
   | .closure fs => Fin.idsL fs
+  | .deferred body rel => Fin.ids body ++ rel
 def Fin.idsL : List Fin → List Nat
   | [] => []
   | f :: fs => Fin.ids f ++ Fin.idsL fs
+end
+
+mutual
+/-- the USER teardowns of a tree (those that may panic), depth first: `ids` without the
+    library-internal releases of deferred closures -/
+def Fin.uids : Fin → List Nat
+  | .leaf id _ => [id]
+  | .sub fs => Fin.uidsL fs
+  | .closure fs => Fin.uidsL fs
+  | .deferred body _ => Fin.uids body
+def Fin.uidsL : List Fin → List Nat
+  | [] => []
+  | f :: fs => Fin.uids f ++ Fin.uidsL fs
 end
 
 mutual
@@ -190,6 +211,7 @@ def Fin.panics : Fin → List Err
   | .leaf _ p => p.toList
   | .sub fs => Fin.panicsL fs
   | .closure fs => Fin.panicsL fs
+  | .deferred body _ => Fin.panics body
 def Fin.panicsL : List Fin → List Err
   | [] => []
   | f :: fs => Fin.panics f ++ Fin.panicsL fs
@@ -206,6 +228,7 @@ def Fin.assign (pan : Nat → Option Err) : Fin → Fin
   | .leaf id _ => .leaf id (pan id)
   | .sub fs => .sub (Fin.assignL pan fs)
   | .closure fs => .closure (Fin.assignL pan fs)
+  | .deferred body rel => .deferred (Fin.assign pan body) rel
 def Fin.assignL (pan : Nat → Option Err) : List Fin → List Fin
   | [] => []
   | f :: fs => Fin.assign pan f :: Fin.assignL pan fs
